@@ -12,6 +12,11 @@ CONSTANTS
   Shapes <- ShapesAll
   UShapes <- UShapesAll
   Fams <- FamsAll
+  CDA <- DT15
+  CDE <- DT15
+  CVB <- AllVC
+  CPairs <- PairsAll
+  COps <- COpsFull
 INIT Init
 NEXT Next
 INVARIANT Export
